@@ -32,9 +32,11 @@ func VP_C19_MutatedFiles() {
 		idx := newIndex()
 		idx.Entries = []*Entry{NewEntry(id, []byte("a")), NewEntry(id, []byte("d/b"))}
 		idx.EntryNum = 2
-		zzvp.WriteFile(g+"/index", vpMutate(vpEncode(idx.Entries)))
+		mutated := vpMutate(vpEncode(idx.Entries))
+		zzvp.WriteFile(g+"/index", mutated)
 		back, err := NewIndex(g)
 		if err == nil {
+			zzvp.Assert(vpFaithful(mutated, back), "a damaged staging-area file that still loads is decoded faithfully (no invented or padded entry)")
 			// the consumers of a loaded staging area
 			_, _, _ = back.GetEntry([]byte("d/b"))
 			_, _, _ = back.GetEntry([]byte("zz"))
